@@ -113,6 +113,26 @@ def deep_name(r, n, utf8=False):
         return deep_name(r, n, False)
     return out
 
+def sibling_family(r, kind=None):
+    """names that a directory-oriented writer (iso9660 level 1-4 and Joliet identifiers, 8.3 style truncation) maps to the
+    SAME identifier, so that its duplicate resolver has to rename them: characters the target set lacks, case
+    differences, a common prefix longer than the identifier"""
+    kind = r.randrange(5) if kind is None else kind
+    if kind == 0:       # one or two characters, all replaced by '_'
+        stem = r.choice([b"", b"a", b"Z"])
+        return [stem + c for c in r.sample([b"?", b"*", b":", b";", b"\\", b'"', b"<", b">", b"|"], r.choice([2, 3, 5]))]
+    if kind == 1:       # differ in case only
+        w = rname(r, r.choice([1, 3, 8, 12])).lower()
+        return sorted({w, w.upper(), w.capitalize()})
+    if kind == 2:       # same first 8 characters and extension
+        w = rname(r, 8)
+        return [w + rname(r, r.choice([1, 4])) + b".txt" for _ in range(r.choice([2, 3, 4]))]
+    if kind == 3:       # longer than a Joliet identifier (64 / 103 UCS-2 characters), same prefix
+        w = rname(r, r.choice([64, 103, 110]))
+        return [w + rname(r, r.choice([1, 5])) + r.choice([b"", b".c"]) for _ in range(r.choice([2, 3]))]
+    w = rname(r, r.choice([1, 2, 5]))      # replaced characters in the middle and in the extension
+    return [w + c + b"x" + e for c, e in r.sample([(b"?", b""), (b"*", b""), (b":", b".a?"), (b";", b".a*"), (b"+", b""), (b"=", b"")], 3)]
+
 def gen_path(r, fmt, spec, k, ft):
     kind = spec["names"]
     utf8 = spec.get("utf8", False)
@@ -154,6 +174,7 @@ def gen_sequence(r, fmt, spec, big=0.06):
     times = [tmin, tmin + 1, tmax, tmax - 1, (tmin + tmax) // 2, 10**9, 2**31 - 1, 2**31, 2**32 - 1]
     es, used = [], set()
     dirs = []
+    family = []
     for k in range(n):
         ft = r.choice(spec["types"] + [REG] * 3)
         d = dict(mode=ft | (r.choice([0o644, 0o755, 0o600, 0o7777 & spec.get("permmask", 0o7777), 0o444, 0]) if r.random() < 0.5
@@ -162,6 +183,11 @@ def gen_sequence(r, fmt, spec, big=0.06):
             d["mode"] |= 0o100        # directories without search permission are awkward for nothing here; keep x for owner
         for _ in range(20):
             p = gen_path(r, fmt, spec, k, ft)
+            if spec["names"] == "tree":
+                if not family and r.random() < 0.25:
+                    family = sibling_family(r)
+                if family:
+                    p = family.pop()
             if spec["names"] == "tree" and dirs and r.random() < 0.5:
                 p = r.choice(dirs) + b"/" + p
             if spec.get("nospace"):
@@ -265,6 +291,19 @@ def gen_cases(rep):
                          (1 << 22) if plain else 0, -1, 0])
             out.append((line, dict(fmt=fmt, opts=opts.decode(), flt=flt.decode(), fcode=fcode, bpb=bpb, bilb=bilb, loc=loc,
                                    entries=es, model=plain, round=1)))
+        # directed: every kind of sibling family (names the writer's duplicate resolver has to rename), in the root
+        # and in a sub-directory, under every option set of the directory-oriented formats
+        if spec["names"] == "tree":
+            for kind in range(5):
+                for opts in spec.get("options", [b""]):
+                    fam = sibling_family(r, kind)
+                    es = [dict(mode=DIR | 0o755, nlink=1, path=b"sub", uid=0, gid=0, mtime=(10**9, 0), size=0, body=b"", chunks=())]
+                    for j, nm in enumerate(fam):
+                        for pre in (b"", b"sub/"):
+                            body = b"body of %d\n" % j
+                            es.append(dict(mode=REG | 0o644, nlink=1, path=pre + nm, uid=0, gid=0, mtime=(10**9 + j, 0), size=len(body), body=body, chunks=()))
+                    line = vfmt([0, 1, fmt.encode(), opts, b"", 0, -1, [to_ent(d) for d in es], 0, -1, 0])
+                    out.append((line, dict(fmt=fmt, opts=opts.decode(), flt="", fcode=0, bpb=0, bilb=-1, loc=1, entries=es, model=False, round=1)))
     return out
 
 # ---- comparison --------------------------------------------------------------------------------
@@ -322,7 +361,14 @@ def rb_fields(rb, fmt):
 
 def short(v):
     s = repr(v)
-    return s if len(s) < 70 else s[:66] + "...'"
+    return s if len(s) < 70 else s[:66] + "...'(%d bytes)" % (len(v) if hasattr(v, "__len__") else 0)
+
+def short2(g, v):
+    """both values, and where they first differ when they are long"""
+    if isinstance(g, bytes) and isinstance(v, bytes) and max(len(g), len(v)) >= 60:
+        i = next((k for k in range(min(len(g), len(v))) if g[k] != v[k]), min(len(g), len(v)))
+        return "%s, written %s [first difference at byte %d: read %r / written %r]" % (short(g), short(v), i, g[max(0, i - 8):i + 12], v[max(0, i - 8):i + 12])
+    return "%s, written %s" % (short(g), short(v))
 
 def check_round1(meta, iv):
     """-> None | (key, description)"""
@@ -398,8 +444,8 @@ def check_round1(meta, iv):
             if f == "mtime" and "mtime_ns_opt" in spec["fields"] and g is not None and g[0] == v[0] and g[1] in (0, d["mtime"][1]):
                 continue        # pax restricted keeps the nanoseconds only when it emits an extended header anyway
             if g != v:
-                return ("C02:%s:%s" % (fmt, f), "%s: entry #%d (type %o) %s reads back as %s, written %s" %
-                        (tag, k, d["mode"] & IFMT, f, short(g), short(v)))
+                return ("C02:%s:%s" % (fmt, f), "%s: entry #%d (type %o) %s reads back as %s" %
+                        (tag, k, d["mode"] & IFMT, f, short2(g, v)))
         if not spec.get("nobody") and (d["mode"] & IFMT) == REG and not d.get("hard"):
             want = d["body"][:d["size"]] + b"\0" * max(0, d["size"] - len(d["body"]))
             body = rb[RB["body"]]
